@@ -204,10 +204,17 @@ def run(ctx):
         return cases
 
     def go(cases, variant):
-        for c, o in zip(cases, core.run_cases(ctx, 'c34', None, cases, variant=variant,
-                                              timeout=TIMEOUT)):
-            if core.std_obs_check(ctx, c, o, True, SAN_DECIDES):
-                judge(ctx, None, c, o)
+        for _ in range(6):                 # cases cut short by a crashing graph are re-run without it
+            again = []
+            for c, o in zip(cases, core.run_cases(ctx, 'c34', None, cases, variant=variant,
+                                                  timeout=TIMEOUT)):
+                if isinstance(o, dict) and '_crash' in o and crashed(ctx, c, o, again):
+                    continue
+                if core.std_obs_check(ctx, c, o, True, SAN_DECIDES):
+                    judge(ctx, None, c, o)
+            cases = again
+            if not cases:
+                break
     with cf.ThreadPoolExecutor(1) as ex:
         fut = ex.submit(build_api, ctx, aseeds)
         go(light(ctx.scale(150, 3000)), 'plain')
@@ -217,6 +224,27 @@ def run(ctx):
     aseeds = [s for s in aseeds if s in dirs]
     go([{'mode': 'api', 'asan': 1, 'seeds': aseeds[i:i + 4], 'dirs': [dirs[s] for s in aseeds[i:i + 4]]}
         for i in range(0, len(aseeds), 4)], 'asan')
+
+
+def crashed(ctx, case, obs, again):
+    """a child died: the graph it was in (last breadcrumb on its stderr) is the witness, classified
+    by whether anonymous-member names of several FFIs meet in one module; the other graphs of
+    the case are run again"""
+    m = re.findall(r'C34-CRUMB graph (\d+) collide=(\d)', obs.get('_stderr', ''))
+    if not m or int(m[-1][0]) not in case['seeds']:
+        return False
+    seed, i = int(m[-1][0]), case['seeds'].index(int(m[-1][0]))
+    ctx.count('child_crashes')
+    ctx.violation('crash:%s:%s' % ('anonymous-member-names-collide' if m[-1][1] == '1' else 'other',
+                                   case['mode']),
+                  'the interpreter died (rc=%s) while the types of graph seed %d (%s) were asked\n%s'
+                  % (obs['_crash'], seed, case['mode'], obs.get('_stderr', '')[-1200:]),
+                  {'mode': case['mode'], 'seeds': [seed]})
+    for part in (slice(0, i), slice(i + 1, None)):
+        if case['seeds'][part]:
+            again.append(dict(case, seeds=case['seeds'][part],
+                              dirs=case.get('dirs', case['seeds'])[part]))
+    return True
 
 
 def replay_setup(ctx, case):
@@ -392,6 +420,8 @@ def run_graph(st, rep, seed, mode, dirs):
     anon = Anon(nodes)
     rnd = random.Random(seed ^ 0x34)
     where = ' :: graph seed %d, mode %s, %s of %d' % (seed, mode, topo, len(nodes))
+    os.write(2, b'C34-CRUMB graph %d collide=%d\n' % (seed, mode != 'inline' and any(
+        len(({k} | nd.vis) & anon.declaring) >= 2 for k, nd in enumerate(nodes))))
 
     def bad(mech, msg):
         rep.bad('%s:%s' % (mech, mode), msg + where, seed)
